@@ -104,6 +104,34 @@ def gen_file(rng, dt=None, max_depth=None):
     return dict(dt=dt, flags=flags, extra=extra, chunks=chunks)
 
 
+def gen_tight_end_file(rng, dt=None):
+    """A legal file whose last number leaves as few bits as possible behind it: a comb-shaped code
+    tree 10..20 levels deep, every range single-valued (no offset bits, no run length), the body a
+    whole number of bytes and its last number carrying the 1-bit code -- so that after the last
+    code only the 8 bits of the footer byte remain.  (A decoder whose table lookup wants more
+    bits than that at once must not mistake this for missing data.)"""
+    dt = dt or rng.choice([d for d in lib.DTYPES if d != "bool"])
+    fmin = rng.randint(0, 1)
+    flags = (1, 0, fmin, 0)
+    ulo, uhi = numgen.u_range(dt)
+    depth = rng.randint(10, 20)
+    codes = ["1" * i + "0" for i in range(depth)] + ["1" * depth]
+    vals = rng.sample(range(ulo, min(uhi, ulo + 10 ** 6) + 1), len(codes))
+    table = [dict(count=0, lower=v, upper=v, code="b" + c, jump=-1, gcd=1) for c, v in zip(codes, vals)]
+    blocks = []
+    bits = 0
+    for _ in range(rng.randint(0, 40)):
+        i = rng.randrange(len(table)) if rng.random() < 0.5 else rng.randrange(min(4, len(table)))
+        blocks.append((i, [0])); table[i]["count"] += 1; bits += len(codes[i])
+    while True:
+        blocks.append((0, [0])); table[0]["count"] += 1; bits += 1
+        if bits % 8 == 0:
+            break
+    n = len(blocks)
+    chunk = dict(n=n, moments=[], common=1, table=table, blocks=blocks)
+    return dict(dt=dt, flags=flags, extra=0, chunks=[chunk])
+
+
 def specenc_query(a):
     f = a["flags"]
     parts = ["specenc", a["dt"], str(f[0]), str(f[1]), str(f[2]), str(f[3]), str(a["extra"]), str(len(a["chunks"]))]
